@@ -398,7 +398,7 @@ def _scope_rule(repo, rep):
               construct="get-default", where=L.where(g))
     # copy shares the root, new local layer
     c = ci.methods.get("copy")
-    text = " ".join(src(s) for s in c.node.body)
+    text = L.text(c.node, body_only=True)
     rep.check("Scope(self)" in text and
               ("getattr(self, '_root', self)" in text) and
               "inst._root = root" in text, "R05.6", c.qualname,
@@ -406,13 +406,13 @@ def _scope_rule(repo, rep):
               "root of the original", construct="copy", where=L.where(c),
               detail=text)
     sgl = ci.methods.get("set_global")
-    text = " ".join(src(s) for s in sgl.node.body)
+    text = L.text(sgl.node, body_only=True)
     rep.check("getattr(self, '_root', self)" in text and
               "root[name] = value" in text, "R05.6", sgl.qualname,
               "set_global writes the shared root", construct="set_global",
               where=L.where(sgl), detail=text)
     gi = ci.methods.get("__getitem__")
-    t = " ".join(src(x) for x in gi.node.body)
+    t = L.text(gi.node, body_only=True)
     rep.check("value = self.get(key, marker)" in t and
               "if value is marker: raise KeyError(key)" in t and
               "return value" in t, "R05.6", gi.qualname,
@@ -420,20 +420,19 @@ def _scope_rule(repo, rep):
               "KeyError only if neither layer has it", construct="getitem",
               where=L.where(gi), detail=t)
     co = ci.methods.get("__contains__")
-    t = " ".join(src(x) for x in co.node.body)
+    t = L.text(co.node, body_only=True)
     rep.check("return self.get(key, marker) is not marker" in t, "R05.6",
               co.qualname, "'key in scope' sees both layers",
               construct="contains", where=L.where(co), detail=t)
     it_ = ci.methods.get("__iter__")
-    t = " ".join(src(x) for x in ast.walk(it_.node)
-                 if isinstance(x, ast.stmt))
+    t = L.text(it_.node)
     rep.check("yield from super().__iter__()" in t and
               "for key in root:" in t and
               "if not super().__contains__(key): yield key" in t, "R05.6",
               it_.qualname, "iteration yields local names, then root names "
               "that are not shadowed", construct="iter", where=L.where(it_))
     gn = ci.methods.get("get_name")
-    text = " ".join(src(s) for s in gn.node.body)
+    text = L.text(gn.node, body_only=True)
     rep.check("raise NameError(key)" in text and
               "self.get(key, marker)" in text, "R05.6", gn.qualname,
               "get_name raises NameError for an undefined name (a caught "
